@@ -10,6 +10,10 @@ and all claimed checks must still exit 0 (known findings allowed).
   invert-if       if c: A else: B -> if not c: B else: A
   split-and       if a and b: X -> if a: if b: X
   drop-else-after-return   if c: ...return else: B -> if c: ...return; B
+  expand-augassign  x += e -> x = x + e
+  expand-chain    a <= x <= b -> a <= x and x <= b
+  elif-to-else    elif chains written as nested if inside else (with a `pass` in front)
+  de-morgan       not (a and b) -> not a or not b
 
 Usage: /venv/bin/python selftest/benign_transforms.py [name ...] [--keep]
 """
@@ -227,7 +231,85 @@ def drop_else_after_return(tree):
     return tree
 
 
-TRANSFORMS_EXTRA = {'split-and': split_and, 'drop-else-after-return': drop_else_after_return}
+class _ExpandAug(ast.NodeTransformer):
+    """`x += e` -> `x = x + e` for plain names and self attributes (no double evaluation of the target)."""
+
+    def visit_AugAssign(self, n):
+        self.generic_visit(n)
+        t = n.target
+        simple = isinstance(t, ast.Name) or (isinstance(t, ast.Attribute) and isinstance(t.value, ast.Name))
+        if not simple or isinstance(n.op, (ast.BitOr, ast.BitAnd)) and False:
+            return n
+        import copy
+        load = copy.deepcopy(t)
+        load.ctx = ast.Load()
+        return ast.copy_location(ast.Assign(targets=[t], value=ast.BinOp(left=load, op=n.op, right=n.value)), n)
+
+
+def expand_augassign(tree):
+    tree = _ExpandAug().visit(tree)
+    ast.fix_missing_locations(tree)
+    return tree
+
+
+class _ExpandChain(ast.NodeTransformer):
+    """`a <= x <= b` -> `a <= x and x <= b` when the middle operands are names, attributes or constants."""
+
+    def visit_Compare(self, n):
+        self.generic_visit(n)
+        if len(n.ops) < 2 or not all(isinstance(c, (ast.Name, ast.Attribute, ast.Constant)) for c in n.comparators[:-1]):
+            return n
+        import copy
+        parts = []
+        left = n.left
+        for op, right in zip(n.ops, n.comparators):
+            parts.append(ast.Compare(left=copy.deepcopy(left), ops=[op], comparators=[copy.deepcopy(right)]))
+            left = right
+        return ast.copy_location(ast.BoolOp(op=ast.And(), values=parts), n)
+
+
+def expand_chain(tree):
+    tree = _ExpandChain().visit(tree)
+    ast.fix_missing_locations(tree)
+    return tree
+
+
+class _ElifToElse(ast.NodeTransformer):
+    """`if a: A elif b: B else: C` -> `if a: A else: (if b: B else: C)` - same tree in the ast, but unparse nests it."""
+
+    def visit_If(self, n):
+        self.generic_visit(n)
+        if len(n.orelse) == 1 and isinstance(n.orelse[0], ast.If):
+            n.orelse = [ast.Pass(), n.orelse[0]]     # a statement before the inner if keeps unparse from writing `elif`
+        return n
+
+
+def elif_to_else(tree):
+    tree = _ElifToElse().visit(tree)
+    ast.fix_missing_locations(tree)
+    return tree
+
+
+class _DeMorgan(ast.NodeTransformer):
+    """`not (a and b)` -> `not a or not b`; `not (a or b)` -> `not a and not b`."""
+
+    def visit_UnaryOp(self, n):
+        self.generic_visit(n)
+        if isinstance(n.op, ast.Not) and isinstance(n.operand, ast.BoolOp):
+            vals = [v.operand if isinstance(v, ast.UnaryOp) and isinstance(v.op, ast.Not) else ast.UnaryOp(op=ast.Not(), operand=v)
+                    for v in n.operand.values]
+            return ast.copy_location(ast.BoolOp(op=ast.Or() if isinstance(n.operand.op, ast.And) else ast.And(), values=vals), n)
+        return n
+
+
+def de_morgan(tree):
+    tree = _DeMorgan().visit(tree)
+    ast.fix_missing_locations(tree)
+    return tree
+
+
+TRANSFORMS_EXTRA = {'split-and': split_and, 'drop-else-after-return': drop_else_after_return,
+                    'expand-augassign': expand_augassign, 'expand-chain': expand_chain, 'elif-to-else': elif_to_else, 'de-morgan': de_morgan}
 
 
 TRANSFORMS = {'invert-if': invert_if, 'flip-compare': flip_compare, 'reformat': reformat, 'rename-locals': rename_locals, 'add-logging': add_logging, 'shift-lines': shift_lines}
